@@ -78,3 +78,34 @@ func VerifC11Rotate1()   { verifC11(1) }
 func VerifC11Rotate2()   { verifC11(2) }
 
 func VerifC11Rotate3() { verifC11(3) }
+
+// A rotation that stopped at any point of its object writes is retried with --overwrite on the
+// store it left behind (the new key's certificate object may already exist under the name the
+// retry derives again from the unchanged primary): every prefix of the retry's writes is consistent too.
+func VerifC11RotateRetry() {
+	verifMapPerm(true)
+	f := verifNewFixture(true, false)
+	err := f.bootstrap()
+	verifAssert(err == nil, "fault-free bootstrap of an empty store succeeds")
+	initial := append([]verifObject(nil), f.storage.objects...)
+	f.storage.log = nil
+	_, err = f.rotateOnce(f.newCA(), false, time.Unix(int64(verifNondetU32("t")), 0))
+	verifAssert(err == nil, "fault-free rotation succeeds")
+	first := f.storage.log
+	t2 := time.Unix(int64(verifNondetU32("t2")), 0)
+	for k := 0; k < len(first); k++ {
+		f.storage.objects = append([]verifObject(nil), initial...)
+		for _, w := range first[:k] {
+			f.storage.put(w.name, w.data)
+		}
+		stopped := append([]verifObject(nil), f.storage.objects...)
+		f.storage.log = nil
+		_, err := f.rotateOnce(f.newCA(), true, t2)
+		verifObserve("retry_ok", err == nil)
+		if len(f.storage.log) > 0 {
+			verifReach("retry-wrote")
+		}
+		f.verifCheckPrefixes(stopped, f.storage.log, "retried rotation prefix")
+	}
+	verifReach("end")
+}
